@@ -15,7 +15,12 @@ def run_all(repo: Path, out: Path) -> dict:
         if not m.name.startswith("tr_"):
             continue
         mod = importlib.import_module(f"{__name__}.{m.name}")
-        for fname, text, summary in mod.translate(repo):
+        try:
+            produced = mod.translate(repo)
+        except Exception as e:  # fail closed: no table -> dependent theorems do not build
+            report[m.name] = f"TRANSLATOR FAILED (source no longer has the expected shape): {type(e).__name__}: {e}"[:600]
+            continue
+        for fname, text, summary in produced:
             core.write_if_changed(out / fname, text)
             wanted.add(fname)
             report[fname] = summary
